@@ -151,6 +151,21 @@ def extract(t_unit) -> KernelIR:
     return KernelIR(args, temps, stmts, bounds, substs, names)
 
 
+def kernel_names(t_unit) -> dict:
+    """the identifier categories of the entry kernel, read straight off the loopy objects (works for every kernel,
+    also those `extract` does not interpret, e.g. kernels with call instructions)"""
+    knl = t_unit.default_entrypoint
+    return {
+        "args": [a.name for a in knl.args],
+        "temps": list(knl.temporary_variables),
+        "inames": sorted(knl.all_inames()),
+        "insn_ids": [i.id for i in knl.instructions],
+        "substs": sorted(knl.substitutions),
+        "callees": sorted(n for n in t_unit.callables_table if n != knl.name and n in getattr(t_unit, "callables_table", {})
+                          and type(t_unit.callables_table[n]).__name__ == "CallableKernel"),
+    }
+
+
 def _ordered_inames(idx, within):
     """loop order: as the inames appear in the store index, then the rest sorted"""
     out = []
